@@ -10,7 +10,9 @@ RULE = ("plain data trees (depth <= 5, 5-key alphabet, nil/empty containers) in 
         "dotted definitions, list elements addressed by index) x injected duplicate definitions. Oracle: the config unpacks to the "
         "tree the input denotes (numbers by value, nil = empty), re-feeding the result gives the same data, a duplicate is rejected "
         "with ErrDuplicateKey, and 8 repetitions with permuted map insertion orders give one outcome. Non-trivial: the input uses "
-        "a non-default representation, a flattening or a duplicate. Distinct by (representation set, flattening kind, dup kind, shape).")
+        "a non-default representation, a flattening or a duplicate. Further streams: a setting defined below a primitive one ('a' and "
+        "'a.zz', must be rejected as a duplicate in every insertion order) and objects that mix integer-literal keys with names (model "
+        "comparison only). Distinct by (representation set, flattening kind, dup kind, shape).")
 TRUSTED_BASE = ["Lean 4 kernel", "Model/Normalize.lean transcribes merge.go normalize* (differential check)",
                 "Spec.C01.render/canon as the denotation of plain data", "correspondence harness"]
 ASSUMPTIONS = ["keys of the plain tree contain no separator and are not integer literals",
@@ -102,10 +104,36 @@ def gen(rng, tier):
                     if key is not None:
                         dup = True
                         kinds.add("dup")
+            elif rng.chance(0.15):
+                # a setting below a primitive one: 'a: 1' together with 'a.zz: 9' defines a twice
+                lp = leaf_paths(plain)
+                if lp:
+                    p = rng.pick(lp)
+                    key = ".".join(p) + ".zz" + (".y" if rng.chance(0.3) else "")
+                    # spell the primitive's own definition nested or dotted
+                    if all(k != key for k, _ in src["m"]):
+                        src = M(rng.shuffle(src["m"] + [[key, U(9)]]))
+                        dup = True
+                        kinds.add("dup-prefix")
         elif r < 6 and "m" in plain and plain["m"]:
             src = as_struct(rng, plain)
             kinds.add("struct")
-        if not dup:
+        elif r == 6:
+            # numeric keys next to named ones in nested objects (both the dict and the list part of one node are used)
+            def mix(t, depth):
+                if isinstance(t, dict) and "m" in t:
+                    kv = [[k, mix(v, depth + 1)] for k, v in t["m"]]
+                    if depth >= 1 or rng.chance(0.3):
+                        for i in range(rng.below(3)):
+                            kv.append([str(i), rng.pick([U(7), S("x"), M([("q", U(1))])])])
+                    return M(rng.shuffle(kv))
+                return t
+            src = mix(plain, 0)
+            if src != plain:
+                kinds.add("numkeys")
+                if rng.chance(0.5):
+                    opts = [opt("PathSep", ".")]
+        if not dup and "numkeys" not in kinds:
             src2 = add_reps(rng, src) if "st" not in src else src
             if src2 != src:
                 kinds.add("reps")
@@ -116,7 +144,7 @@ def gen(rng, tier):
              "_nt": bool(kinds), "_sig": "%s|%s|%s" % ("+".join(sorted(kinds)), shape_of(plain), d)}
         if dup:
             c["dup"] = True
-        else:
+        elif "numkeys" not in kinds:
             c["plain"] = plain
         yield c
 
